@@ -332,8 +332,12 @@ def run_accept_task(task):
     from pddl_plus_parser.models import Problem
     res = {"task": task, "outcome": "held", "paths": 0, "cex": None, "obligations": 0}
     stats = Stats()
-    text = G.domain_text([("act", [], ["and"], ["and"])], const=True, types=task["types"],
-                         extra_predicates=[["pa", "?a", "-", task["required"]]])
+    # `gr` uses pa/pb/fa over parameters of OTHER types than the predicates declare (more general and more specific): grounding
+    # it (task["after_grounding"]) must leave the declared types, which the fact checks below consult, as they are
+    text = G.domain_text([("act", [], ["and"], ["and"]),
+                          ("gr", [("?o", "object"), ("?n", "t4")], ["and", ["pa", "?o"], ["pa", "?n"]],
+                           ["and", ["not", ["pa", "?o"]], ["pb", "?n", "?o"], ["increase", ["fa", "?o"], "1"]])],
+                         const=True, types=task["types"], extra_predicates=[["pa", "?a", "-", task["required"]]])
     req2 = task.get("required2", task["required"])
     text = text.replace("(:predicates", f"(:predicates (pb ?a - {task['required']} ?b - {req2})")
     text = text.replace("(:functions", f"(:functions (fa ?a - {task['required']}) (fb ?a - {task['required']} ?b - {req2})")
@@ -357,6 +361,13 @@ def run_accept_task(task):
         pp.problem = Problem(dom)
         t = FinStr(tv, TVOC)
         pp.problem.objects = pp.parse_objects(["ob", "-", t])
+        if task.get("after_grounding"):
+            from pddl_plus_parser.models import Operator, PDDLObject
+            helpers = {"x0": PDDLObject("x0", dom.types["object"]), "x4": PDDLObject("x4", dom.types["t4"])}
+            try:
+                Operator(dom.actions["gr"], dom, ["x0", "x4"], helpers).ground()
+            except Exception:  # noqa -- what the library makes of `gr` is not judged here
+                pass
         try:
             if task["what"] == "fact":
                 pp.parse_grounded_predicate(["pa", "ob"], dom.predicates["pa"])
@@ -410,6 +421,7 @@ def accept_tasks():
         for req in ("t1", "t3", "t4", "t2", "object"):
             for what in ("fact", "fluent"):
                 tasks.append({"kind": "accept", "types": types, "required": req, "what": what})
+                tasks.append({"kind": "accept", "types": types, "required": req, "what": what, "after_grounding": True})
         # the same object in two positions that require different types: accepted exactly when its type fits both
         for req, req2 in (("t1", "t3"), ("t3", "t1"), ("t4", "t1"), ("t1", "object"), ("object", "t3"), ("t2", "t1")):
             for what in ("fact_repeated_object", "fluent_repeated_object", "trajectory_fluent_repeated_object"):
